@@ -161,6 +161,8 @@ BadOffs == {<<"-","2","4",":","0","0">>, <<"+","2","4",":","0","0">>, <<"-","2",
 C13(z) ==
   {[op |-> "rfc_read", s |-> s] : s \in {g \in Good(z) : InShard(Len(g))}}
   \cup (IF First THEN {[op |-> "rfc_read", s |-> SubSeq(Base, 1, k) \o o] : k \in {19, 21}, o \in BadOffs} ELSE {})
+  \* day 31 of every month (and 29/30 February, day 32, month 0/13, day 0): exists or is out of range
+  \cup (IF First THEN {[op |-> "rfc_read", s |-> t] : t \in {<<"2","0","2","3","-","0","1","-","3","1","T","1","2",":","0","0",":","0","0","Z">>, <<"2","0","2","3","-","0","2","-","3","1","T","1","2",":","0","0",":","0","0","Z">>, <<"2","0","2","3","-","0","3","-","3","1","T","1","2",":","0","0",":","0","0","Z">>, <<"2","0","2","3","-","0","4","-","3","1","T","1","2",":","0","0",":","0","0","Z">>, <<"2","0","2","3","-","0","5","-","3","1","T","1","2",":","0","0",":","0","0","Z">>, <<"2","0","2","3","-","0","6","-","3","1","T","1","2",":","0","0",":","0","0","Z">>, <<"2","0","2","3","-","0","7","-","3","1","T","1","2",":","0","0",":","0","0","Z">>, <<"2","0","2","3","-","0","8","-","3","1","T","1","2",":","0","0",":","0","0","Z">>, <<"2","0","2","3","-","0","9","-","3","1","T","1","2",":","0","0",":","0","0","Z">>, <<"2","0","2","3","-","1","0","-","3","1","T","1","2",":","0","0",":","0","0","Z">>, <<"2","0","2","3","-","1","1","-","3","1","T","1","2",":","0","0",":","0","0","Z">>, <<"2","0","2","3","-","1","2","-","3","1","T","1","2",":","0","0",":","0","0","Z">>, <<"2","0","2","4","-","0","2","-","3","1","T","1","2",":","0","0",":","0","0","Z">>, <<"2","0","2","4","-","0","4","-","3","1","T","1","2",":","0","0",":","0","0","Z">>, <<"2","0","2","4","-","0","6","-","3","1","T","1","2",":","0","0",":","0","0","Z">>, <<"2","0","2","4","-","0","9","-","3","1","T","1","2",":","0","0",":","0","0","Z">>, <<"2","0","2","4","-","1","1","-","3","1","T","1","2",":","0","0",":","0","0","Z">>, <<"2","0","2","3","-","0","2","-","2","9","T","1","2",":","0","0",":","0","0","Z">>, <<"2","0","2","3","-","0","2","-","3","0","T","1","2",":","0","0",":","0","0","Z">>, <<"2","0","2","4","-","0","2","-","3","0","T","1","2",":","0","0",":","0","0","Z">>, <<"1","9","0","0","-","0","2","-","2","9","T","1","2",":","0","0",":","0","0","Z">>, <<"2","0","0","0","-","0","2","-","3","0","T","1","2",":","0","0",":","0","0","Z">>, <<"2","0","2","3","-","0","6","-","3","2","T","1","2",":","0","0",":","0","0","Z">>, <<"2","0","2","3","-","1","2","-","3","2","T","1","2",":","0","0",":","0","0","Z">>, <<"2","0","2","3","-","0","0","-","1","0","T","1","2",":","0","0",":","0","0","Z">>, <<"2","0","2","3","-","1","3","-","1","0","T","1","2",":","0","0",":","0","0","Z">>, <<"2","0","2","3","-","0","5","-","0","0","T","1","2",":","0","0",":","0","0","Z">>}} ELSE {})
   \cup (IF First THEN {[op |-> "rfc_read", s |-> Replace(Base, m[1], m[2])] : m \in Mutations}
                       \cup {[op |-> "rfc_read", s |-> s] : s \in {Feb30, Apr31, Feb29, Base}} ELSE {})
   \cup {[op |-> "rfc_write", val |-> Dt(d, c[1], c[2], o), prec |-> pr] :
